@@ -279,7 +279,7 @@ func TestC09(t *testing.T) {
 		h.Exhaustive(fmt.Sprintf("%d hostile/odd names x 24 name positions x 2 backends", len(hostileNames)+len(oddSafeNames)))
 	}
 
-	rapidCases(h, "names", env.PerShard(env.Pick(4000, 400000)), func(rt *rapid.T) nameCase {
+	rapidCases(h, "names", env.PerShard(env.Pick(32000, 800000)), func(rt *rapid.T) nameCase {
 		c := nameCase{Native: rapid.Bool().Draw(rt, "native")}
 		n := rapid.IntRange(1, 8).Draw(rt, "n")
 		for i := 0; i < n; i++ {
